@@ -26,6 +26,14 @@ func sliceFromArray(arrValue reflect.Value) reflect.Value {
 	arrType := arrValue.Type()
 	sliceType := reflect.SliceOf(arrType.Elem())
 	sliceValue := reflect.MakeSlice(sliceType, arrType.Len(), arrType.Len())
+	if arrType.Len() == 1 {
+		// reflect.Copy reads through the data pointer of its source, which is the element itself (and not a pointer to
+		// the array) if a one-element array of pointers is held directly in an interface or in a struct that is passed
+		// by value: such an array is copied element-wise.
+		sliceValue.Index(0).Set(arrValue.Index(0))
+
+		return sliceValue
+	}
 	reflect.Copy(sliceValue, arrValue)
 
 	return sliceValue
